@@ -406,6 +406,20 @@ func checkAttributes(m *Model, log *Log, in, out string, inToks, outToks []tok, 
 				forcedKey := k == "rel" || k == "target" || k == "crossorigin" || k == "sandbox"
 				if !forcedKey || m.AttrAllowed(el, k, v) || (m.dataAttrs && wellFormedData(k)) {
 					own++
+					continue
+				}
+				// a forced attribute is rewritten in place when the input had it: it is the element's
+				// own if some tag of that name in the input carries it with a value the policy admits
+				// (sandbox="allow-nothing" admitted by a rule and then emptied by the sandbox pass)
+				for _, it := range inToks {
+					if !isOpenTag(it) || it.Name != el {
+						continue
+					}
+					for _, ia := range it.Attr {
+						if ia.Key == k && m.AttrAllowed(el, k, ia.Val) {
+							own++
+						}
+					}
 				}
 			}
 			if own == 0 {
